@@ -9264,6 +9264,15 @@ class SVG(Group):
                             values[SVG_ATTR_TRANSFORM] = viewport_transform
                         values["viewport_transform"] = values[SVG_ATTR_TRANSFORM]
                         width, height = s.viewbox.width, s.viewbox.height
+                    # The svg element's own position and size are not inherited by its children.
+                    for non_propagating in (
+                        SVG_ATTR_X,
+                        SVG_ATTR_Y,
+                        SVG_ATTR_WIDTH,
+                        SVG_ATTR_HEIGHT,
+                    ):
+                        if non_propagating in values:
+                            del values[non_propagating]
                     if context is None:
                         stack[-1] = (context, values)
                     if context is not None:
